@@ -1,20 +1,49 @@
 (** C15: the termination predicted by the model for each analysed type equals what the real generated
-    function does in the test binary (returns / does not return within the time limit). *)
+    function does in the test binary (returns / does not return within the time limit); and the model
+    of the generated functions (Sem/RandSem.v), replayed on the calls to math/rand each real call made,
+    rebuilds the very value the real function returned, which is well-formed. *)
 From Coq Require Import List String ZArith Bool Arith NArith.
-From GM Require Import Base.Result Facts.GoFacts Facts.Ana Model.Enums Model.Fields Model.Classify Model.RandData.
+From GM Require Import Base.Result Facts.GoFacts Facts.Ana Model.Enums Model.Fields Model.Classify Model.RandData Sem.GoJson Sem.GoVal Sem.RandSem.
 Import ListNotations.
 
-Record c15_case := { c15_ana : ana_obs; c15_runs : list (gty * bool) (* type, the real function returned *) }.
+Record c15_case := { c15_prog : prog; c15_enums : list enum; c15_ana : ana_obs;
+                     c15_runs : list (gty * bool) (* type, the real function returned *);
+                     c15_vals : list (gty * list rcall * value) (* type, recorded calls to math/rand, value returned *) }.
+
+Definition depth_fuel (c : c15_case) : nat := S (S (List.length (ao_nodes (c15_ana c)))).
+
+(** the generator model replayed on one real call: every recorded draw is consumed, in order, with the
+    expected function and argument, and the value is the one the real function returned *)
+Definition replay_ok (c : c15_case) (e : gty * list rcall * value) : bool :=
+  let '(t, calls, v) := e in
+  match gen (c15_prog c) (ao_nodes (c15_ana c)) (c15_enums c) (depth_fuel c) t calls with
+  | Some (m, []) => agree m v
+  | _ => false
+  end.
 
 Definition chk (c : c15_case) : bool :=
   let nodes := ao_nodes (c15_ana c) in
   (* [returns] evaluated level by level (Properties/C15.v: C15_levels_compute_returns), under its two premises *)
   calls_closed nodes
   && forallb (fun tb => existsb (gty_eqb (fst tb)) (positions nodes)
-                        && Bool.eqb (returns_level nodes (S (List.length nodes)) (fst tb)) (snd tb)) (c15_runs c).
+                        && Bool.eqb (returns_level nodes (S (List.length nodes)) (fst tb)) (snd tb)) (c15_runs c)
+  && forallb (replay_ok c) (c15_vals c).
 
-(** the property itself: every function returned *)
-Definition chk_prop (c : c15_case) : bool := forallb snd (c15_runs c).
+(** the property itself: every function returned, and every value returned is well-formed *)
+Definition chk_prop (c : c15_case) : bool :=
+  forallb snd (c15_runs c)
+  && forallb (fun e : gty * list rcall * value => let '(t, _, v) := e in
+                wf (c15_prog c) (ao_nodes (c15_ana c)) (c15_enums c) (depth_fuel c) t v) (c15_vals c).
+
+(** replay detail: the values on which the model and the real function disagree, with what the model rebuilt *)
+Definition details (cases : list c15_case) : list (list (gty * option value * nat * bool)) :=
+  map (fun c => flat_map (fun e : gty * list rcall * value =>
+         let '(t, calls, v) := e in
+         let wfv := wf (c15_prog c) (ao_nodes (c15_ana c)) (c15_enums c) (depth_fuel c) t v in
+         if replay_ok c e && wfv then [] else
+           match gen (c15_prog c) (ao_nodes (c15_ana c)) (c15_enums c) (depth_fuel c) t calls with
+           | Some (m, rest) => [(t, Some m, List.length rest, wfv)]
+           | None => [(t, None, 0, wfv)] end) (c15_vals c)) cases.
 
 Section Generic.
   Context {A : Type} (f : A -> bool).
